@@ -38,6 +38,11 @@ def open_handle(backend, root, cached=False):
     return archmc.open_backend(backend, root, 'arch', cached)
 
 
+def archmc_location(backend, root, name):
+    from vfw.engines import archmc
+    return archmc.location(backend, root, name)
+
+
 def run_op(h, op, ctx):
     """apply one operation; returns a picklable observation"""
     k = op[0]
@@ -58,6 +63,33 @@ def run_op(h, op, ctx):
         return h.setdefault(op[1], op[2])
     if k == 'clear':
         h.clear()
+        return None
+    if k == 'popkeys':
+        return h.popkeys(list(op[1]), *op[2:])
+    if k == 'dumpk':
+        # a cache bound to the archive with two dirty entries, then dump(key) of one of them
+        import klepto.archives as ka
+        c = ka.cache(archive=h)
+        c.update(dict(op[1]))
+        c.dump(op[2])
+        return None
+    if k == 'syncclear':
+        # cache.sync(clear=True): the archive is emptied and refilled from the cache
+        import klepto.archives as ka
+        c = ka.cache(archive=h)
+        c.update(dict(op[1]))
+        c.sync(clear=True)
+        return None
+    if k == 'sync':
+        import klepto.archives as ka
+        c = ka.cache(archive=h)
+        c.update(dict(op[1]))
+        c.sync()
+        return None
+    if k == 'copy':
+        # copy(name): writes a second archive next to this one; this one must not change
+        loc = archmc_location(ctx['backend'], ctx['root'], 'copied')
+        h.copy(loc)
         return None
     if k == 'dump':
         # a cache bound to the archive with dirty entries, then dump()
